@@ -69,12 +69,14 @@ def run_gov(ctx, pid, mode, gen_cfg, nv, depth, cap, mc_cfg=None, min_edges=300)
             for x in sorted(mine, key=lambda x: x["n"]):
                 steps = t["steps"][:x["n"]]
                 key = "%s:%s" % (x["p"], x["c"])
-                ctx.violation(key, {"clause": key, "at_step": x["n"],
-                                    "actions": [_short(s["a"]) + " -> " + s["r"] for s in steps],
+                ctx.violation(key, {"clause": key,
+                                    "actions": [_short(a) for a in t["h"]] + [_short(s["a"]) + " -> " + s["r"] for s in steps],
                                     "state_before": steps[-2]["t"] if len(steps) > 1 else t["init"],
                                     "state_after": steps[-1]["t"]},
-                              replay={"kind": "gov-trace", "mode": mode, "nv": nv, "init": t["init"], "steps": steps})
-        ctx.sample({"recorded_real_execution": [_short(s["a"]) + " -> " + s["r"] for s in traces[0]["steps"]]})
+                              replay={"kind": "gov-trace", "mode": mode, "nv": nv, "history": t["h"], "ghost": t["g"],
+                                      "init": t["init"], "steps": steps})
+        ctx.sample({"recorded_real_execution": [_short(a) for a in traces[0]["h"]] +
+                    [_short(s["a"]) + " -> " + s["r"] for s in traces[0]["steps"]]})
     ctx.note("recorded real executions judged: %d (violating %s: %d, only other governance properties: %d, drift: %d)"
              % (len(traces), pid, own, other, drift))
     ctx.cov["evaluations"] = summ["edges"] + summ["offmodel"]
